@@ -193,6 +193,16 @@ def main():
     build()
     jobs = registry.REG[prop][tier] if tier in registry.REG[prop] else registry.REG[prop]["quick"]
     extra = getattr(registry, "EXTRA", {}).get(prop)
+    # The thorough tier is scaled to a wall-clock budget (VERIF_THOROUGH_MIN minutes per property, default 30):
+    # every job keeps its shape (sizes, parameters), only the time it may spend exploring shrinks, never below the
+    # 20 s floor.  Jobs that close earlier stop earlier; jobs cut short are reported non-exhaustive.
+    budget_scale = 1.0
+    if tier == "thorough":
+        cap_min = float(os.environ.get("VERIF_THOROUGH_MIN", "30"))
+        est_min = sum(j.get("secs", 60) * j.get("jobs", 1) for j in jobs) / CORES / 60.0
+        if est_min > cap_min:
+            budget_scale = cap_min / est_min
+            jobs = [dict(j, secs=max(20, int(j.get("secs", 60) * budget_scale))) for j in jobs]
     outdir = os.path.join(SCRATCH, "%s-%s-%d" % (prop, tier, os.getpid()))
     os.makedirs(outdir, exist_ok=True)
     results = schedule(jobs, tier, seed, outdir)
@@ -320,6 +330,7 @@ def main():
     ev = dict(
         property_id=prop, tier=tier, seed=seed, level="model_checking", wall_s=round(wall, 2), violations=len(viol),
         coverage=dict(
+            job_time_budget_scale=round(budget_scale, 3),
             states=max(agg["paths"], 1), transitions=max(agg["queries"], 1), traces_validated_against_impl=agg["witness_validated"],
             evaluations=max(agg["queries"], 1), distinct_nontrivial=agg["paths_with_obligations"],
             obligations=agg["obligations_checked"], discharged=agg["obligations_by_solver"] + agg["obligations_on_path"],
